@@ -642,7 +642,7 @@ class Subspace(IdealPoint):
 
         if model == Model.POINCARE:
             klein_basis = self.ideal_basis_coords(model=Model.KLEIN)
-            klein_midpoint = klein_basis.sum(axis=-2) / klein_basis.shape[-2]
+            klein_midpoint = _flat_center(klein_basis)
             poincare_midpoint = kleinian_to_poincare(klein_midpoint)
             poincare_extreme = utils.sphere_inversion(poincare_midpoint)
 
@@ -651,8 +651,7 @@ class Subspace(IdealPoint):
 
         elif model == Model.HALFSPACE:
             halfspace_basis = self.ideal_basis_coords(model=Model.HALFSPACE)
-            halfspace_midpoint = (halfspace_basis.sum(axis=-2) /
-                                  halfspace_basis.shape[-2])
+            halfspace_midpoint = _circumcenter(halfspace_basis)
 
             #just use the first element of the basis
             center = halfspace_midpoint
@@ -1990,6 +1989,36 @@ def hyperboloid_coords(points, column_vectors=False):
         hyperbolized = hyperbolized.swapaxes(-1, -2)
 
     return hyperbolized
+
+def _offsets(points):
+    # points[..., 1:, :] relative to points[..., 0, :], and their Gram matrix
+    base = points[..., :1, :]
+    offsets = points[..., 1:, :] - base
+    return base, offsets, offsets @ offsets.swapaxes(-1, -2)
+
+def _flat_center(points):
+    """Point of the affine span of the given points (rows) which is closest
+    to the origin. For two points on the unit sphere this is the
+    midpoint of the chord between them."""
+    if points.shape[-2] == 2:
+        return points.sum(axis=-2) / 2
+
+    base, offsets, gram = _offsets(points)
+    coeffs = utils.invert(gram) @ (offsets @ base.swapaxes(-1, -2))
+    return (base - coeffs.swapaxes(-1, -2) @ offsets)[..., 0, :]
+
+def _circumcenter(points):
+    """Center of the sphere through the given points (rows) which lies in
+    their affine span. For two points this is their midpoint."""
+    if points.shape[-2] == 2:
+        return points.sum(axis=-2) / 2
+
+    base, offsets, gram = _offsets(points)
+    half_sq = np.expand_dims(
+        np.diagonal(gram, axis1=-2, axis2=-1), axis=-1
+    ) / 2
+    coeffs = utils.invert(gram) @ half_sq
+    return (base + coeffs.swapaxes(-1, -2) @ offsets)[..., 0, :]
 
 def spacelike(vectors):
     """Determine if a vector in R^(n,1) is spacelike.
